@@ -7,7 +7,7 @@ import itertools
 import numpy as np
 from . import common
 
-THEOREM_FILES = ['NumqiProps/C08.lean', 'NumqiProps/C08Batch.lean']
+THEOREM_FILES = ['NumqiProps/C08.lean', 'NumqiProps/C08Batch.lean', 'NumqiProps/C08Wrap.lean', 'NumqiProps/C10F2.lean']
 LEVEL = 'proof'
 RULE = ('ops are generated exhaustively for n=1,2 (n=3 in thorough): every phased Pauli through every conversion, every ordered pair through '
         'mul/comm; plus random operators up to n=12 and indices up to 4^31, single and batched code paths. An op is non-trivial when the '
@@ -47,13 +47,14 @@ def sign_to_exp(s):
     return {(1, 0): 0, (0, 1): 1, (-1, 0): 2, (0, -1): 3}[(int(round(s.real)), int(round(s.imag)))]
 
 
-def guarded(f):
+from .c09 import guarded, canon   # rejections are one token `rejected` whatever the exception class; nothing propagates
+
+
+def safe_impl_op(op):
     try:
-        return f()
-    except AssertionError:
-        return 'error:assert'
-    except (ValueError, TypeError, IndexError, KeyError) as e:
-        return 'error:' + type(e).__name__
+        return impl_op(op)
+    except Exception as e:  # noqa: BLE001
+        return 'raised:' + type(e).__name__
 
 
 def impl_op(op):
@@ -96,6 +97,100 @@ def impl_op(op):
             mats = [np.array([complex(*map(int, e.split(','))) for e in m.split(';')]).reshape(2, 2) for m in t[4].split('|')]
             return bits(P.from_np_list(mats, PH[int(t[3])]).F2)
         return guarded(f)
+    if k in ('pofindex', 'pofstr', 'pofF2'):
+        def quad(p):
+            # __len__, .F2, .str_, .sign of the constructed operator
+            return f'{len(p)} {bits(p.F2)} {p.str_ if len(p) else "-"} {sign_to_exp(p.sign)}'
+        def f():
+            n = int(t[2])
+            if k == 'pofindex':
+                i = int(t[3])
+                r = quad(P.from_index(i, n))
+                if 0 <= i < 2 ** 62 and quad(P.from_index(np.int64(i), n)) != r:
+                    return 'from_index depends on the integer type'
+                if bits(G.pauli_index_to_F2(i, n, with_sign=True)) != r.split(' ')[1]:
+                    return 'from_index(i).F2 differs from pauli_index_to_F2(i)'
+                return r
+            if k == 'pofstr':
+                e = int(t[4])
+                r = quad(P.from_str(t[3], PH[e]))
+                if e == 0 and quad(P.from_str(t[3])) != r:
+                    return 'from_str default sign differs from sign=1'
+                if quad(P.from_str(t[3], sign=PH[e])) != r:
+                    return 'from_str keyword sign differs'
+                return r
+            a = f2arr('' if t[3] == '-' else t[3])
+            snap = a.copy()
+            p = P.from_F2(a)
+            r = quad(p)
+            if not np.array_equal(a, snap):
+                return 'from_F2 modified its argument'
+            # the constructor must reject what the documentation excludes: non-uint8 dtype, 2-d arrays
+            for bad in (a.astype(np.int64), a[None, :]):
+                try:
+                    P.from_F2(bad)
+                    return f'from_F2 accepted dtype {bad.dtype} ndim {bad.ndim}'
+                except AssertionError:
+                    pass
+            return r
+        return guarded(f)
+    if k == 'pstr':
+        def f():
+            p = P(f2arr(t[3]))
+            s1, s2 = str(p), repr(p)
+            if s1 != s2:
+                return 'str != repr'
+            return s1.replace(' ', '_')
+        return guarded(f)
+    if k == 'pgroup':
+        def f():
+            n = int(t[2])
+            if t[3] == 'str':
+                r = G.get_pauli_group(n, kind='str')
+                return '|'.join(r) if isinstance(r, tuple) else f'type {type(r).__name__}'
+            if t[3] == 'str_to_index':
+                r = G.get_pauli_group(n, kind='str_to_index')
+                return '|'.join(f'{a}:{int(b)}' for a, b in r.items())
+            if t[3] == 'numpy':
+                r = G.get_pauli_group(n)                       # default kind
+                r2 = G.get_pauli_group(n, kind='numpy')
+                sp = G.get_pauli_group(n, kind='numpy', use_sparse=True)
+                if r.shape != (4 ** n, 2 ** n, 2 ** n) or not np.array_equal(r, r2):
+                    return f'shape {r.shape} / default kind differs'
+                if len(sp) != 4 ** n or any(not np.array_equal(x.toarray(), y) for x, y in zip(sp, r)):
+                    return 'use_sparse=True differs from the dense table'
+                return '|'.join(mat_to_chars(m) for m in r)
+            return guarded(lambda: str(G.get_pauli_group(n, kind=t[3])))
+        return guarded(f)
+    if k == 'ofindexns':
+        def f():
+            n, i = int(t[2]), int(t[3])
+            r = bits(G.pauli_index_to_F2(i, n, with_sign=False))
+            if 0 <= i < 4 ** n and n <= 31:
+                rb = bits(G.pauli_index_to_F2(np.array([i], dtype=np.uint64), n, with_sign=False)[0])   # ndarray branch
+                rl = bits(np.asarray(G.pauli_index_to_F2((i,), n, with_sign=False))[0])                # tuple -> ndarray branch
+                if rb != r or rl != r:
+                    return f'with_sign=False: int path {r}, ndarray path {rb}, tuple path {rl}'
+            return r
+        return guarded(f)
+    if k == 'toindexns':
+        def f():
+            a = f2arr(t[3])
+            r = int(G.pauli_F2_to_index(a, with_sign=False))
+            rb = int(G.pauli_F2_to_index(a[None, :], with_sign=False)[0])     # 2-d branch
+            if int(t[2]) <= 31 and rb != r:
+                return f'with_sign=False: 1-d path {r}, 2-d path {rb}'
+            return str(r)
+        return guarded(f)
+    if k == 'rpauli':
+        def f():
+            from .c07 import ScriptedGenerator
+            n = int(t[2])
+            raw = f2arr(t[4])
+            req = {'N': None, 'H': True, 'A': False}[t[3]]
+            p = numqi.random.rand_pauli(n, is_hermitian=req, seed=ScriptedGenerator(raw))
+            return bits(p.F2)
+        return guarded(f)
     if k == 'herm':
         def f():
             M = P(f2arr(t[3])).full_matrix
@@ -126,6 +221,35 @@ def gen_ops(ctx):
             ops.append(f'C08 str2idx {s}')
             for e in range(4):
                 ops.append(f'C08 ofstr {n} {s} {e}')
+    # wrapper rows: PauliOperator.from_index / from_str / from_F2 / __len__ / __str__, get_pauli_group, with_sign=False paths,
+    # rand_pauli post-processing (model NumqiModel/PauliWrap.lean; theorems NumqiProps/C08Wrap.lean)
+    for n in ns:
+        for idx in list(range(4 ** n)) + [4 ** n, 4 ** n + 1, 2 * 4 ** n, -1, -4 ** n]:
+            ops += [f'C08 pofindex {n} {idx}', f'C08 ofindexns {n} {idx}']
+        for idx in range(4 ** n):
+            sx = ''.join('IXYZ'[(idx >> (2 * (n - 1 - j))) & 3] for j in range(n))
+            for e in range(4):
+                ops.append(f'C08 pofstr {n} {sx} {e}')
+        for a in all_f2(n):
+            ops += [f'C08 pofF2 {n} {a}', f'C08 pstr {n} {a}']
+        for a in itertools.product('01', repeat=2 * n):
+            ops.append(f'C08 toindexns {n} {"".join(a)}')
+    for a in ('-', '0', '1', '00', '01', '10', '11', '000', '10101', '1010101'):   # too short / odd length / the 0-qubit operator
+        ops.append(f'C08 pofF2 0 {a}')
+    for n in (1, 2, 3):
+        for kind in ('str', 'str_to_index', 'numpy', 'foo', 'Str'):
+            ops.append(f'C08 pgroup {n} {kind}')
+    for n in (1, 2):
+        for raw in all_f2(n):
+            for req in 'NHA':
+                ops.append(f'C08 rpauli {n} {req} {raw}')
+    for _ in range(150 if ctx.quick() else 2000):
+        n = rng.choice([3, 4, 5, 8, 12, 16, 25, 31])
+        a = ''.join(rng.choice('01') for _ in range(2 * n + 2))
+        idx = rng.randrange(4 ** n)
+        sx = ''.join(rng.choice('IXYZ') for _ in range(n))
+        ops += [f'C08 pofindex {n} {idx}', f'C08 ofindexns {n} {idx}', f'C08 pofstr {n} {sx} {rng.randint(0, 3)}', f'C08 pofF2 {n} {a}',
+                f'C08 pstr {n} {a}', f'C08 toindexns {n} {a[2:]}', f'C08 rpauli {n} {rng.choice("NHA")} {a}']
     nr = 300 if ctx.quick() else 3000
     for _ in range(nr):
         n = rng.randint(3, 12)
@@ -177,6 +301,13 @@ def batched_tie(ctx):
                 for i1, f, s1 in zip(ind.reshape(-1), F2.reshape(-1, 2 * n + 2), np.asarray(S2).reshape(-1)):
                     ops.append(f'C08 ofindex {n} {int(i1)}'); impl.append(bits(f))
                     ops.append(f'C08 idx2str {n} {int(i1)}'); impl.append(str(s1))
+                # the with_sign=False branches of both batched routes
+                F2n = G.pauli_index_to_F2(ind, n, with_sign=False)
+                I2n = G.pauli_F2_to_index(np.ascontiguousarray(F[..., 2:]), with_sign=False)
+                for i1, f in zip(ind.reshape(-1), F2n.reshape(-1, 2 * n)):
+                    ops.append(f'C08 ofindexns {n} {int(i1)}'); impl.append(bits(f))
+                for f, i1 in zip(flat, np.asarray(I2n).reshape(-1)):
+                    ops.append(f'C08 toindexns {n} {bits(f[2:])}'); impl.append(str(int(i1)))
             strs = np.array([''.join(rng.choice(list('IXYZ'), size=n)) for _ in range(int(np.prod(shp)))]).reshape(shp)
             es = rng.integers(0, 4, size=shp)
             sign = np.array([PH[int(e)] for e in es.reshape(-1)]).reshape(shp)
@@ -185,14 +316,20 @@ def batched_tie(ctx):
             for s1, e1, f, i1 in zip(strs.reshape(-1), es.reshape(-1), F3.reshape(-1, 2 * n + 2), np.asarray(I3).reshape(-1)):
                 ops.append(f'C08 ofstr {n} {s1} {int(e1)}'); impl.append(bits(f))
                 ops.append(f'C08 str2idx {s1}'); impl.append(str(int(i1)))
-    model = common.run_model(ops)
+            # a scalar sign broadcast over the batch of strings
+            e0 = int(rng.integers(0, 4))
+            F4 = G.pauli_str_to_F2(strs, PH[e0])
+            for s1, f in zip(strs.reshape(-1), F4.reshape(-1, 2 * n + 2)):
+                ops.append(f'C08 ofstr {n} {s1} {e0}'); impl.append(bits(f))
+    model = [canon(m) for m in common.run_model(ops)]
+    impl = [canon(i) for i in impl]
     common.compare(ctx, ops, impl, model, key=lambda op: 'batched-' + op.split(' ')[1])
 
 
 def correspondence(ctx):
     ops = gen_ops(ctx)
-    impl = [impl_op(op) for op in ops]
-    model = common.run_model(ops)
+    impl = [canon(safe_impl_op(op)) for op in ops]
+    model = [canon(m) for m in common.run_model(ops)]
     ident = lambda op, out: not all(c in '0 ' for c in ''.join(op.split(' ')[3:]))
     common.compare(ctx, ops, impl, model, nontrivial=ident)
     batched_tie(ctx)
@@ -318,6 +455,12 @@ def probe(ctx):
             ctx.fail('result-aliasing', f'after modifying the arrays returned for index {i1} (n={n}, {s1}) the same calls return different values', rp)
         else:
             ctx.probe_ok(('ralias', n, i1))
+    # get_pauli_group is memoised (functools.lru_cache): on the unmodified tree two calls hand out the same ndarray / dict object.
+    # Recorded as an observation (the caller must not modify the table), not vandalised and not alarmed.
+    g1, g2 = G.get_pauli_group(2), G.get_pauli_group(2)
+    d1, d2 = G.get_pauli_group(2, kind='str_to_index'), G.get_pauli_group(2, kind='str_to_index')
+    ctx.extra['observation_get_pauli_group'] = ('numpy table: ' + ('the cached ndarray itself is returned' if g1 is g2 else 'fresh array per call')
+                                                + '; str_to_index: ' + ('the cached dict itself is returned' if d1 is d2 else 'fresh dict per call'))
     # module-level constants must survive
     for nm, ref in (('I', np.eye(2)), ('X', np.array([[0, 1], [1, 0]])), ('Y', np.array([[0, -1j], [1j, 0]])), ('Z', np.diag([1, -1]))):
         if not np.array_equal(getattr(numqi.gate, nm), ref):
